@@ -112,6 +112,7 @@ def rules(ck, P):
             ck.check(not clears, "R-FIRST", gts["q"] + "|no-clear", "slots are never cleared between sources", "slots are cleared/taken between sources", ir.loc(clo))
             rc = [n for n in ir.walk_nodes(lp["body"]) if n.get("k") == "call" and (n.get("q") or "").endswith("compression::recompress")]
             _recompress_ok(ck, gts, rc, src["hid"], "stream")
+            _every_source_consulted(ck, gts, clo, lp, src)
             # the recompress is inside the fill guard (only the winning tile is re-encoded and stored)
     # ---------------- build: union coverage, compression, format
     b = builds[0]
@@ -155,6 +156,61 @@ def rules(ck, P):
              "declared compression is not `common or Uncompressed`", ir.loc(b))
     okf = ir.contains(b["body"], lambda y: y.get("k") == "call" and y.get("q") == "anyhow::__private::not" and ir.contains(y, lambda z: z.get("k") == "field" and z.get("name") == "tile_format"))
     ck.check(okf, "R-COVER-OPS", b["q"] + "|format", "sources with a different tile format are rejected at build time", "tile formats of the sources are not compared", ir.loc(b))
+
+
+def _every_source_consulted(ck, gts, clo, lp, src):
+    """stream: a source may be skipped only when no slot is empty any more, and it is asked for a box that covers every
+    empty slot.  `missing` = a local box that starts empty and grows only by include_coord3 of slots guarded by is_none()."""
+    key = gts["q"]
+    # exits of the source loop (not those of nested loops / closures, except `return`)
+    exits = []
+
+    def scan(n, parents, depth_loop, in_clo):
+        k = n.get("k")
+        if k in ("break", "continue") and depth_loop == 0 and not in_clo:
+            exits.append((n, list(parents)))
+        if k in ("ret", "try") and not in_clo:
+            exits.append((n, list(parents)))
+        for c in ir.children(n):
+            scan(c, parents + [n], depth_loop + (1 if k in ("for", "while", "loop") else 0), in_clo or k == "closure")
+    scan(lp["body"], [], 0, False)
+    # candidates for `missing`
+    missing = {}
+    for n in ir.walk_nodes(lp["body"]):
+        if n.get("k") == "let" and "init" in n and n["pat"].get("k") == "bind" and ir.contains(n["init"], lambda y: (y.get("q") or "").endswith("TileBBox::new_empty")):
+            missing[n["pat"]["hid"]] = n["pat"]["name"]
+    ok_missing = {}
+    for h, nm in missing.items():
+        ok = True
+        grows = 0
+        for n, parents, _ in ir.walk(lp["body"]):
+            if n.get("k") == "mcall" and ir.local_hid(n["recv"]) == h and n["recv"].get("ta", n["recv"].get("t", "")).startswith("&mut"):
+                if not n.get("name", "").startswith("include_coord"):
+                    ok = False
+                    continue
+                grows += 1
+                guards = [p for p in parents if p.get("k") == "if"]
+                g_ok = len(guards) == 1 and ir.unparen(guards[0]["c"]).get("k") == "mcall" and ir.unparen(guards[0]["c"]).get("name") == "is_none" and ir.contains(guards[0]["then"], lambda y: y is n)
+                inner = [p for p in parents if p.get("k") == "for"]
+                it_ok = len(inner) == 1 and ir.place_str(inner[0]["iter"]).replace(" ", "") in ("tiles.iter().enumerate()",)
+                ok = ok and g_ok and it_ok
+        ok_missing[h] = ok and grows == 1
+    good = [h for h, v in ok_missing.items() if v]
+    ck.check(len(good) == 1, "R-FIRST", key + "|missing-box", "the box of still-missing tiles is rebuilt per source from every slot that is None (and only grows by those)",
+             "the per-source box of missing tiles is not the bounding box of all empty slots", ir.loc(lp))
+    mh = good[0] if good else None
+    bad = []
+    for n, parents in exits:
+        guards = [p for p in parents if p.get("k") == "if"]
+        c = ir.unparen(guards[-1]["c"]) if guards else None
+        fine = n.get("k") == "continue" and len(guards) == 1 and c.get("k") == "mcall" and c.get("name") == "is_empty" and ir.local_hid(c["recv"]) == mh and mh is not None
+        if not fine:
+            bad.append("%s at %s" % (n.get("k"), ir.loc(n)))
+    ck.check(not bad, "R-FIRST", key + "|every-source-consulted", "a source is skipped only when no slot is empty (`continue` under missing.is_empty()); the loop has no other exit",
+             "the loop over sources can end or skip a source while slots are still empty: %s" % bad, ir.loc(lp))
+    asks = [n for n in ir.walk_nodes(lp["body"]) if n.get("k") == "mcall" and (n.get("q") or "").endswith("OperationTrait::get_tile_stream")]
+    ok_ask = len(asks) == 1 and ir.local_hid(asks[0]["recv"]) == src["hid"] and mh is not None and ir.local_hid(asks[0]["a"][0]) == mh
+    ck.check(ok_ask, "R-FIRST", key + "|asks-missing", "each consulted source is asked for the box of missing tiles", "the source is not asked for the box covering all empty slots", ir.loc(lp))
 
 
 def _recompress_ok(ck, fn, rc, src_hid, path):
